@@ -70,6 +70,8 @@ func refSketch(n, k int, seqs []core.S) []uint64 {
 }
 
 func runC17(r *core.Run) {
+	defer racePass(r, "race-C17", "Sequences and Distance on shared input sequences")
+
 	ks := []int{1, 2, 3}
 	ns := []int{1, 2, 3, 5, 8}
 	r.Assume("murmur3 (github.com/spaolacci/murmur3 Sum64WithSeed) is trusted as the hash primitive; mash.Seed is left at its default and never written by the harness")
